@@ -259,6 +259,23 @@ def parse_file(path, cs, repo='/repo', default_pkg=None):
             imports[a] = p
         elif kw == 'prop':
             props = [x.strip() for x in rest.split(',') if x.strip()]
+        elif kw == 'funcfield':
+            # funcfield <Type>.<field>(<param names>): contract of a function-typed struct field;
+            # assumed at calls through the field, an obligation of every function that
+            # `implements` it (the functions assigned to the field)
+            from .program import normfn
+            mm = re.match(r'^([\w.]+)\.(\w+)\s*\(([^)]*)\)\s*$', rest)
+            if not mm:
+                raise ValueError('%s:%d: bad funcfield clause' % (path, n))
+            key = normfn(pkg + '::' + mm.group(1) + '.' + mm.group(2))
+            cur = FuncContract(key, pkg, path, n)
+            cur.props = list(props)
+            cur.imports = imports
+            cur.is_iface = True
+            cur.assumed = True
+            cur.opts['funcfield'] = ','.join(x.strip() for x in mm.group(3).split(',') if x.strip())
+            cs.funcs[key] = cur
+            curlemma = None
         elif kw in ('func', 'iface'):
             from .program import normfn
             key = normfn(pkg + '::' + rest.strip())
